@@ -17,14 +17,16 @@ import sys
 from lib import progs, ast_io, terms, semcheck
 from lib.terms import g_str, g_list, g_nat, g_term
 from lib.progs import V, A, F
+from props import c20
 sys.setrecursionlimit(max(sys.getrecursionlimit(), 20000))
 
 ID = 'C17'
-THEOREMS = ['C17_prefix_mono', 'C17_sld_answers_prefix_monotone', 'C17_machine_answers_prefix_monotone', 'C17_engine_with_python_predicates_prefix_monotone', 'C17_machine_result_is_prefix',
+THEOREMS = ['C17_prefix_mono', 'C17_sld_answers_prefix_monotone', 'C17_machine_answers_prefix_monotone', 'C17_engine_with_python_predicates_prefix_monotone', 'C17_engine_answers_prefix_monotone', 'C17_engine_result_is_prefix',
+            'C17_engine_no_depth_error_escapes', 'C17_machine_result_is_prefix',
             'C17_machine_complete_when_shallow', 'C17_result_is_prefix', 'C17_complete_when_shallow',
             'C17_no_depth_error_escapes', 'C17_rlimit_restored', 'C17_generator_closed_on_every_branch',
             'C17_vars_unbound_after', 'C17_result_collected_so_far', 'C17_nested_keeps_rlimit']
-IMPORTS = ['Lang.Ast', 'Sem.Machine', 'Sem.RunSem', 'Engine.Bounded', 'Engine.RunBoundedM']
+IMPORTS = ['Lang.Ast', 'Sem.Machine', 'Sem.RunSem', 'Sem.Native', 'Sem.RunNative', 'Engine.Bounded', 'Engine.RunBoundedM', 'Engine.RunBoundedN']
 MODEL_NEEDS_IMPL = True
 CASE_TIMEOUT = 30
 COQ_CHUNK = 12
@@ -59,6 +61,7 @@ def exc_model(name):
 
 def exc_tag(name):
     """what Engine.RunBoundedM.exc_obs prints for the exception class"""
+    if name.startswith('Boom') and name[4:].isdigit(): return ['Other', 10 + int(name[4:])]     # the object of Python predicate i
     if name in ('RuntimeError', 'RecursionError'): return ['RuntimeError']
     if name == 'StopIteration': return ['StopIteration']
     return ['Other', {'ValueError': 0, 'KeyError': 1, 'YPException': 2, 'Custom': 3}[name]]
@@ -153,13 +156,29 @@ NESTQ = 'nfq__'
 
 def impl(case):
     from yldprolog import compiler, engine as E
-    src = semcheck.source_of(case)
-    try:
-        text = compiler.compile_prolog_from_string(src, semcheck.Ctx)
-    except Exception as e:
-        return {'rejected': type(e).__name__, 'msg': str(e)[:200], 'source': src}
+    natives = case.get('native') or []
     yp = E.YP()
-    yp.load_script_from_string(text)
+    cl = c20.rest_clauses(case) if natives else case['clauses']
+    if cl:
+        src = ast_io.program_text(cl)
+        try:
+            text = compiler.compile_prolog_from_string(src, semcheck.Ctx)
+        except Exception as e:
+            return {'rejected': type(e).__name__, 'msg': str(e)[:200], 'source': src}
+        yp.load_script_from_string(text)
+    for dname, ts in case.get('dyn') or []:
+        yp.assert_fact(yp.atom(dname), c20.build_fact(yp, ts))
+    # registered Python predicates (as in C20); predicate i raises its own exception object
+    nat_exc = [c20.Boom('raised by Python predicate %d' % i) for i in range(len(natives))]
+    if natives:
+        facts = c20.fact_preds(c20.numbered(case))
+        for i, spec in enumerate(natives):
+            rows = [c20.row_terms(r) for r in facts.get((spec['name'], spec['arity']), [])]
+            f, ar = c20.make_native(yp, E, spec, rows, nat_exc[i], [])
+            if ar is None:
+                yp.register_function(spec['name'], f)
+            else:
+                yp.register_function(spec['name'], f, arity=ar)
     name, qargs = case['query']
     args, nq = semcheck.query_terms(case['query'])
     nest = case.get('nest')
@@ -221,6 +240,10 @@ def impl(case):
             info['cyclic'] = True
             return ['raise', 'CyclicTerm', False]
         except BaseException as e:
+            which = next((i for i, o in enumerate(nat_exc) if e is o), None)
+            e.__traceback__ = None          # the traceback would keep the frames (and their suspended unify generators) alive
+            if which is not None:
+                return ['raise', 'Boom%d' % which, True]
             return ['raise', type(e).__name__, e is exc_obj]
         finally:
             info['rl_after'] = sys.getrecursionlimit()
@@ -266,6 +289,7 @@ def impl(case):
         end = 'rec'
     except BaseException as e:
         end = 'raised ' + type(e).__name__
+        e.__traceback__ = None
     finally:
         try:
             g.close()
@@ -306,6 +330,13 @@ def model_expr(case, io):
         gn = '(Some (%s, %s, %s, %s, %s))' % (g_nat(nest[0]), g_nat(nest[1]), g_nat(lim2), g_nat(1), g_raise(nest[3]))
     else:
         gn = 'None'
+    if case.get('native') or case.get('dyn'):
+        return '(run_bounded_n %s %s %s %s %s %s %s %s %s %s %s %s %s %s %s)' % (
+            ast_io.g_program(progs.number_anons(c20.rest_clauses(case) if case.get('native') else case['clauses'])),
+            c20.g_natives(case, case.get('native') or []), c20.g_dyn(case.get('dyn') or []),
+            g_str(case['query'][0]), g_list([g_term(a) for a in args]), g_nat(nq),
+            g_nat(io['cur']), g_nat(max(0, io['limit'])), g_nat(io['rl0']), g_nat(dlo), g_nat(dhi), g_nat(case.get('dchk', 0)),
+            g_raise(case.get('raise')), gn, g_nat(CAP))
     return '(run_bounded_m %s %s %s %s %s %s %s %s %s %s %s %s %s)' % (
         prog, g_str(case['query'][0]), g_list([g_term(a) for a in args]), g_nat(nq),
         g_nat(io['cur']), g_nat(max(0, io['limit'])), g_nat(io['rl0']), g_nat(dlo), g_nat(dhi), g_nat(case.get('dchk', 0)),
@@ -346,7 +377,7 @@ def impl_outcome_as_model(io, case):
     o = io['outcome']
     if o[0] == 'return':
         return o
-    return ['raise', exc_tag(o[1]) if o[1] in EXC else ['Unknown', o[1]]]
+    return ['raise', exc_tag(o[1]) if (o[1] in EXC or o[1].startswith('Boom')) else ['Unknown', o[1]]]
 
 def compare(case, io, mo):
     if 'rejected' in io:
@@ -425,6 +456,11 @@ def oracle(case, io):
             return None
         inner = case.get('nest') and (case['nest'][2] == 'zero' or (case['nest'][3] and case['nest'][3][1] not in CAUGHT))
         if inner:
+            return None
+        if o[1].startswith('Boom'):
+            i = int(o[1][4:])
+            if (case.get('native') or [])[i].get('raise') is None:
+                return 'the exception object of Python predicate %d arrived although it never raises' % i
             return None
         if not rs or rs[1] in CAUGHT:
             return 'an exception %s escaped that the projection function did not raise' % o[1]
@@ -529,6 +565,49 @@ def fam_random(rng):
     p = progs.gen_program(rng, o)
     return {'family': 'random', 'clauses': p['clauses'], 'query': rng.choice(p['queries']), 'fpl': 3, 'tdepth': 10, 'maxdelta': 160, 'dchk': 40}
 
+def nspec(rng, name, ar, raise_=None):
+    return {'name': name, 'arity': ar, 'style': rng.choice(['inferred', 'explicit', 'variadic']),
+            'yield': rng.choice(['false', 'true', 'mixed']), 'form': rng.choice(['arrays', 'nested']), 'raise': raise_}
+
+def fam_python(rng):
+    """engines with registered Python predicates and dynamic facts (model: Sem/NativeExc.v); a Python predicate may raise its
+    own exception object instead of its j-th answer: it goes through evaluate_bounded like an exception of the projection"""
+    k = rng.randrange(0, 5)
+    q3 = [fact('q', A('a')), fact('q', A('b')), fact('q', A('c'))]
+    if k in (0, 1):     # finite chain of prescribed depth over nx/2: Python predicate (0) or dynamic facts (1)
+        n = rng.choice([1, 2, 3, 5, 8, 13, 20, 30])
+        rules = [['ch', [V('X')], ['and', call('nx', V('X'), V('Y')), call('ch', V('Y'))]], fact('ch', A('e'))]
+        nx = [[A('n%d' % i), A('n%d' % (i + 1))] for i in range(n)] + [[A('n%d' % n), A('e')]]
+        start = rng.randrange(0, n + 1)
+        c = {'family': 'py-chain' if k == 0 else 'dyn-chain', 'query': ['ch', [A('n%d' % start)]], 'fpl': 3, 'tdepth': 4, 'need': n - start + 3, 'maxdelta': 200}
+        if k == 0:
+            c['clauses'] = rules + [['nx', r, ['true']] for r in nx]
+            c['native'] = [nspec(rng, 'nx', 2, rng.choice([None, None, None, rng.randrange(0, n + 1)]))]
+            c['dyn'] = []
+        else:
+            c['clauses'] = rules
+            c['native'] = []
+            c['dyn'] = c20.dyn_terms([['nx', r] for r in nx])
+        return c
+    if k == 2:          # infinitely many answers through a Python predicate that may raise
+        cl = [['lp', [V('X')], call('q', V('X'))], ['lp', [V('X')], call('lp', V('X'))]] + q3
+        return {'family': 'py-inf', 'clauses': cl, 'query': ['lp', [V('Q0')]], 'fpl': 3, 'tdepth': 3, 'maxdelta': 90,
+                'native': [nspec(rng, 'q', 1, rng.choice([None, 0, 1, 2, 3, 7, 20]))], 'dyn': c20.dyn_terms([['q', [A('dyn')]]]) if rng.random() < 0.3 else []}
+    if k == 3:          # growing terms over a Python base case
+        cl = [['nat', [V('X')], call('zero', V('X'))], ['nat', [F('s', V('X'))], call('nat', V('X'))], fact('zero', A('z'))]
+        return {'family': 'py-nat', 'clauses': cl, 'query': ['nat', [V('Q0')]], 'fpl': 3, 'tdepth': 70, 'maxdelta': 110,
+                'native': [nspec(rng, 'zero', 1, rng.choice([None, None, 5, 12]))], 'dyn': []}
+    while True:         # a random finite program with all its fact predicates in Python
+        clauses, queries, dyn = c20.gen_base(rng)
+        fp = sorted(c20.fact_preds(clauses))
+        if fp:
+            break
+    nats = [nspec(rng, kk[0], kk[1]) for kk in fp]
+    if rng.random() < 0.3:
+        nats[rng.randrange(len(nats))]['raise'] = rng.choice([0, 1, 2])
+    return {'family': 'py-random', 'clauses': clauses, 'query': rng.choice(queries), 'fpl': 3, 'tdepth': 10, 'maxdelta': 160, 'dchk': 40,
+            'native': nats, 'dyn': c20.dyn_terms(dyn)}
+
 def rand_delta(rng, c):
     md = c.get('maxdelta', 400)
     r = rng.random()
@@ -564,10 +643,10 @@ def decorate(rng, c):
         c['nest'] = [rng.randrange(0, 3), rng.randrange(0, 4), rng.choice(['ok', 'ok', 'low', 'zero']), rs2]
     return c
 
-FAMILIES = [(fam_random, 5), (fam_chain, 3), (fam_countdown, 1), (fam_len, 1), (fam_leftrec, 4), (fam_infinite, 4)]
+FAMILIES = [(fam_random, 5), (fam_chain, 3), (fam_countdown, 1), (fam_len, 1), (fam_leftrec, 4), (fam_infinite, 4), (fam_python, 5)]
 
 def gen(rng, tier):
-    n = 230 if tier == 'quick' else 4000
+    n = 260 if tier == 'quick' else 4000
     fams = [f for f, w in FAMILIES for _ in range(w)]
     cases = []
     for _ in range(n):
@@ -666,7 +745,7 @@ def distribution(cases, obs):
 
 def describe(case):
     q = case['query']
-    return {'program': semcheck.source_of(case), 'query': ast_io.term_text(['fun', q[0], q[1]]) if q[1] else q[0],
+    return {'program': semcheck.source_of(case), 'python_predicates': case.get('native') or [], 'dynamic_facts': [[n, [terms.show_term(t) for t in ts]] for n, ts in (case.get('dyn') or [])], 'query': ast_io.term_text(['fun', q[0], q[1]]) if q[1] else q[0],
             'limit': case['abs_limit'] if case.get('abs_limit') is not None else 'depth of the evaluate_bounded frame + %d' % case['delta'],
             'projection': ('raises %s at answer %d' % (case['raise'][1], case['raise'][0])) if case.get('raise') else
                           ('nested evaluate_bounded at answer %d (%s)' % (case['nest'][0], case['nest'][2])) if case.get('nest') else 'returns the answer'}
